@@ -106,6 +106,14 @@ const (
 	voTamperMtime              // marker records another modification time
 	voTamperCheckpointSameTime // the WAL was checkpointed into the main file behind rqlite's back, the file's modification time was put back
 	voTamperCheckpoint         // the same, modification time as the file system sets it
+	// An earlier manual recovery of this node was killed while it replayed the log into its temporary
+	// database: the marker is gone (Open removes it before it recovers), <data dir>/recovery.db holds
+	// the newest snapshot's state (nothing without a snapshot) and recovery.db-wal the first k command
+	// entries a recovery replays, k = 0 .. all of them (one choice per k).
+	voTamperInterruptedRecovery
+	// A database of another lineage lies at <data dir>/recovery.db (left by another release, copied
+	// with the directory ...): main file with one foreign tag, with or without a WAL file holding another.
+	voTamperForeignRecoveryDB
 	voTamperN
 )
 
@@ -324,6 +332,7 @@ type voWorld struct {
 	ly net.Listener
 
 	// --- both ---
+	round       int  // number of the running period / down time (names of choices)
 	crcMismatch bool // the asynchronous checksum check of the fast path found another checksum than the marker's
 	entry       string
 	choices     []string // the history, as chosen
@@ -377,6 +386,13 @@ func (w *voWorld) peersInfo() string  { return filepath.Join(w.dir, "raft", "pee
 
 // recoveryWALPath: the WAL file of the temporary database RecoverNode works in.
 func (w *voWorld) recoveryWALPath() string { return filepath.Join(w.dir, "recovery.db-wal") }
+func (w *voWorld) recoveryDBPath() string  { return filepath.Join(w.dir, "recovery.db") }
+
+// tags of the foreign database of voTamperForeignRecoveryDB (never used by the node's own writes)
+const (
+	voForeignMainTag = 77
+	voForeignWALTag  = 78
+)
 
 // --- abstract file system ---
 
@@ -670,6 +686,10 @@ func voOpenSwappable(dbPath string, drv *sql.Driver, fkEnabled, wal bool, maxROC
 	}
 	if n, ok := w.nodes[dbPath]; !ok {
 		w.nodes[dbPath] = w.newDBNode(nil)
+		// SQLite deletes a WAL file it finds next to a database file of zero pages (pager.c,
+		// pagerOpenWalIfPresent): a WAL whose main file is gone is not adopted by a new main file
+		// (seen natively: recovery.db removed, recovery.db-wal left, no snapshot - nothing replayed twice)
+		delete(w.nodes, dbPath+"-wal")
 	} else if n.kind != voKDB {
 		return nil, errors.New("verif: file is not a database")
 	}
@@ -1576,6 +1596,14 @@ func (w *voWorld) tamper(kind int) bool {
 	if kind == voTamperNone {
 		return true
 	}
+	if kind == voTamperInterruptedRecovery {
+		w.interruptedRecovery()
+		return true
+	}
+	if kind == voTamperForeignRecoveryDB {
+		w.foreignRecoveryDB(w.choose(verifName("foreign-recovery-db-without-wal-", w.round), 2) == 1)
+		return true
+	}
 	if verifSymbolic() {
 		m, ok := w.nodes[w.markerPath()]
 		if !ok {
@@ -1663,6 +1691,130 @@ func (w *voWorld) tamper(kind int) bool {
 		}
 	}
 	return true
+}
+
+// interruptedRecovery: see voTamperInterruptedRecovery. The node is down.
+//
+// Natively the files are produced the way a recovery produces them before it is killed: the newest
+// snapshot is restored to recovery.db (snapshot.Restore), the file is opened as RecoverNode opens it
+// (WAL mode, rqlite's default driver), the first k command entries of the raft log after the
+// snapshot index go through a CommandProcessor, and the database is let go of without a checkpoint
+// (the default driver does not checkpoint on close): recovery.db-wal stays, holding the k entries.
+func (w *voWorld) interruptedRecovery() {
+	tmp := w.recoveryDBPath()
+	if verifSymbolic() {
+		var base []int
+		var snapIdx uint64
+		if sn := w.newestSnap(); sn != nil {
+			base, snapIdx = sn.tags, sn.index
+		}
+		var cmds [][]byte
+		for i, e := range w.ents {
+			if w.first+uint64(i) > snapIdx && e.typ == raft.LogCommand {
+				cmds = append(cmds, e.data)
+			}
+		}
+		k := w.choose(verifName("recovery-killed-after-commands-", w.round), len(cmds)+1)
+		main := w.newDBNode(base)
+		wal := &voNode{kind: voKWAL}
+		for _, data := range cmds[:k] {
+			if tag := voTagOf(data); tag >= 0 {
+				wal.tags = append(wal.tags, tag)
+			} else if len(data) == 1 && data[0] == 0xC9 && len(voApplyOps(main.tags, wal.tags)) > 0 {
+				wal.tags = append(wal.tags, voBump)
+			}
+		}
+		w.nodes[tmp] = main
+		w.nodes[tmp+"-wal"] = wal
+		delete(w.nodes, w.markerPath())
+		if k > 0 {
+			verifReach("recovery-killed-after-replaying-commands")
+		}
+		if k == len(cmds) {
+			verifReach("recovery-killed-after-the-whole-log")
+		}
+		if snapIdx > 0 {
+			verifReach("recovery-killed-with-a-snapshot-restored")
+		}
+		return
+	}
+	must := func(err error) {
+		if err != nil {
+			panic("verif: interrupted recovery: " + err.Error())
+		}
+	}
+	os.Remove(w.markerPath())
+	must(sql.RemoveFiles(tmp))
+	sstr, err := snapshot.NewStore(filepath.Join(w.dir, snapshotsDirName))
+	must(err)
+	metas, err := sstr.List()
+	must(err)
+	var snapIdx uint64
+	if len(metas) > 0 {
+		_, rc, err := sstr.Open(metas[0].ID)
+		must(err)
+		_, err = snapshot.Restore(rc, tmp)
+		rc.Close()
+		must(err)
+		snapIdx = metas[0].Index
+	}
+	must(sstr.Close())
+	logs, err := rlog.New(filepath.Join(w.dir, raftDBPath), false)
+	must(err)
+	last, err := logs.LastIndex()
+	must(err)
+	var cmds [][]byte
+	for idx := snapIdx + 1; idx <= last; idx++ {
+		var e raft.Log
+		must(logs.GetLog(idx, &e))
+		if e.Type == raft.LogCommand {
+			cmds = append(cmds, e.Data)
+		}
+	}
+	must(logs.Close())
+	k := w.choose(verifName("recovery-killed-after-commands-", w.round), len(cmds)+1)
+	db, err := sql.OpenSwappable(tmp, sql.DefaultDriver(), false, true, 0)
+	must(err)
+	dec, err := chunking.NewDechunkerManager(w.dir)
+	must(err)
+	proc := NewCommandProcessor(voLogger(), dec)
+	for _, data := range cmds[:k] {
+		proc.Process(data, db)
+	}
+	dec.Close()
+	must(db.Close())
+}
+
+// foreignRecoveryDB: see voTamperForeignRecoveryDB. The node is down.
+func (w *voWorld) foreignRecoveryDB(withoutWAL bool) {
+	tmp := w.recoveryDBPath()
+	if verifSymbolic() {
+		w.nodes[tmp] = w.newDBNode([]int{voForeignMainTag})
+		if !withoutWAL {
+			w.nodes[tmp+"-wal"] = &voNode{kind: voKWAL, tags: []int{voForeignWALTag}}
+		}
+		return
+	}
+	must := func(err error) {
+		if err != nil {
+			panic("verif: foreign recovery database: " + err.Error())
+		}
+	}
+	must(sql.RemoveFiles(tmp))
+	db, err := sql.Open(tmp, false, true)
+	must(err)
+	for _, q := range []string{voCreateTable, voCreatePad, "INSERT INTO vlog(tag) VALUES(" + voItoa(voForeignMainTag) + ")",
+		"PRAGMA wal_checkpoint(TRUNCATE)", "INSERT INTO vlog(tag) VALUES(" + voItoa(voForeignWALTag) + ")"} {
+		if withoutWAL && strings.HasSuffix(q, voItoa(voForeignWALTag)+")") {
+			continue
+		}
+		_, err := db.ExecuteStringStmt(q)
+		must(err)
+	}
+	must(db.Close())
+	if withoutWAL {
+		must(sql.RemoveWALFiles(tmp))
+	}
 }
 
 // =============================================================================================
